@@ -68,18 +68,26 @@ RULE = ("state = (input expression with explicit targets, operation with its "
         "definition (expand, reduce) resp. factor_intermediates changed the "
         "expression or was offered a (perturbed) complete definition")
 ASSUMPTIONS = [
-    "real orbital basis, canonical Fock matrix (f = diag(e)); orbital spaces "
-    "(2 occ, 2 virt) [quick] and additionally (3,3) for the second-order "
-    "synthetic inputs [thorough]: triples and quadruples amplitudes vanish "
-    "identically in (2,2)",
+    "real orbital basis, canonical Fock matrix (f = diag(e)); orbital space "
+    "(2 occ, 2 virt) [quick], additionally (3,3) for the second-order "
+    "synthetic inputs at the default / renamed / interleaved index tuple "
+    "[thorough]; triples and quadruples amplitudes vanish identically in "
+    "(2,2), so t3_2 / t4_2 and the triples part of t1_3, t2_3, p0_3_ov are "
+    "only exercised structurally there",
     "the table of an intermediate is its registered definition evaluated at "
-    "the default indices (order 3: the once-expanded definition with the "
-    "lower-order tables); the 'def' family compares the two forms",
+    "the default indices (third order: the once-expanded definition with the "
+    "lower-order tables); the 'def' family compares once-expanded, fully "
+    "expanded and tensor value and the declared tensor symmetry",
     "inputs handed to factor_intermediates are expanded sums of products (the "
     "documented pipeline: reduce_expr output or Expr.expand())",
-    "factoring the RE residuals is only explored in the 're' family (model "
-    "with RE first-order doubles); elsewhere the type 're_residual' is "
-    "requested only through types_or_names=None",
+    "factoring the RE residuals (placeholder tensor 'Zero' := 0) preserves "
+    "the value only where the residual vanishes: explored in the 're' family "
+    "in the (2,2) model whose first-order doubles solve the registered "
+    "first-order RE residual equation (block diagonal formal Fock matrix); "
+    "elsewhere 're_residual' is requested only through types_or_names=None",
+    "factor_intermediates requests with max_order >= 3 / without max_order "
+    "through None are not made (preparing the third-order intermediates for "
+    "factorisation does not finish within minutes)",
 ]
 
 _AV = None
@@ -545,13 +553,13 @@ def _name_lists(principal, tier):
     for mo in (1, 2, 3):
         add(list(names), mo)
     for t in types:
-        add(t, None)
+        add(t, 2)
     add(list(types), 2)
-    add(list(reversed(types)), None)
+    add(list(reversed(types)), 2)
     add(None, 2)
     add(None, 1)
-    add(None, None)
-    add(["t_amplitude", "mp_density", "misc"], None)
+    add(["t_amplitude", "mp_density", "misc"], 2)
+    add(["misc", "mp_density", "t_amplitude"], 2)
     return out
 
 
@@ -677,14 +685,7 @@ def _def_case(case):
         else:
             results.append(dict(base, status="ok", nontrivial=nontriv,
                                 outcome=f"def:symmetry-ok:nnz{len(tab.data)}"))
-        forms = [("once", False)]
-        if name in ONCE_EXPANDED_DEFS or name.startswith("p0_3"):
-            if name == "t2_3" and tier == "quick":
-                forms = []
-            else:
-                forms.append(("full", True))
-        else:
-            forms.append(("full", True))
+        forms = [("once", False), ("full", True)]
         for label, fully in forms:
             base = {"key": repr(keyb + (label,)), "transitions": 1}
             out, err, to = _call(
@@ -765,12 +766,8 @@ def _tuples(name, tier):
                      for sp, sl in by.items()})
     if tier == "quick":
         variants = variants[:1] if name in LIGHT else variants[:2]
-    else:
+    elif name not in LIGHT:
         variants.append({sp: tuple((3, 2, 1, 0)[:len(sl)])
-                         for sp, sl in by.items()})
-        variants.append({sp: tuple((1, 2, 0, 3)[:len(sl)])
-                         for sp, sl in by.items()})
-        variants.append({sp: tuple((0, 3, 1, 2)[:len(sl)])
                          for sp, sl in by.items()})
         variants.append({"o": (1, 0, 2, 3)[:len(by.get("o", ()))],
                          "v": (0, 1, 2, 3)[:len(by.get("v", ()))]})
@@ -854,6 +851,8 @@ def _syn1_case(case):
     _, tier, name, label, spec = case
     results = []
     sizes = _sizes(tier, [name])
+    if len(sizes) > 1 and spec[1][0][2] not in _tuples(name, "quick")[:3]:
+        sizes = sizes[:1]
     if name == "t3_2" and tier == "thorough":
         sizes = [(3, 3)]
     models = [_model(*s) for s in sizes]
@@ -866,7 +865,7 @@ def _syn1_case(case):
                "expand_full": [(cl, None)]}
         if tier == "thorough":
             fbr = {"expand_once": _name_lists([name], "quick"),
-                   "expand_full": _name_lists([name], "quick")}
+                   "expand_full": [(cl, None), (None, 2)]}
         _run_input("syn1", spec, tier, models, requests, results,
                    full_base_requests=fbr)
     else:
@@ -928,7 +927,7 @@ def _syn2_case(case):
     requests = [(list(names), None), (None, 2)]
     if tier == "thorough":
         requests += [(list(reversed(names)), None), ([names[-1]], None),
-                     ("t_amplitude", None)]
+                     ("t_amplitude", 2)]
     heavy = "t2_2" in pair
     _run_input("syn2", spec, tier, models, requests, results,
                factor_bases=("reduce", "expand_once") if not heavy
@@ -1265,9 +1264,22 @@ def _re_case(case):
     terms = sorted(_terms(b.sympy), key=str)
     n = len(terms)
     requests = [(["t2_1_re_residual"], None), ("re_residual", None)]
-    mods = [()] + [((k, c),) for k in range(n) for c in ("2", "0")]
+    # perturbed are the terms without a partner related by a permutation of
+    # the target indices (unique tensor-block signature: the two -1/2 V t
+    # terms and the bare integral).  With a perturbed member of a permutation
+    # family (4 ring terms, 2+2 Fock terms) factor_intermediates does not
+    # return within minutes on the unchanged tree - outside the bounds.
+    def sig(t):
+        out = []
+        for o in t.atoms(AntiSymmetricTensor):
+            out.append((o.name, "".join(x.space[0] for x in o.upper),
+                        "".join(x.space[0] for x in o.lower)))
+        return tuple(sorted(out))
+    sigs = [sig(t) for t in terms]
+    single = [k for k in range(n) if sigs.count(sigs[k]) == 1]
+    mods = [()] + [((k, c),) for k in single for c in ("2", "0")]
     if tier == "thorough":
-        mods += [((k, c),) for k in range(n) for c in ("-1", "1/2")]
+        mods += [((k, c),) for k in single for c in ("-1", "1/2")]
     for mod in mods:
         for foreign in (False, True):
             if foreign and mod != ():
@@ -1298,10 +1310,12 @@ def bounds(tier):
                              "synthetic inputs (syn1, pert)"),
         "syn1_intermediates": SYN1_QUICK,
         "syn1_expand_only": SYN1_ONCE_ONLY,
-        "index_tuples": "default, reversed, renamed onto k,l,c,d, interleaved"
-                        ", one repeated pair" if q else
-                        "all injective tuples over 4 names per space, all "
-                        "repetition patterns",
+        "index_tuples": "default, renamed onto k,l,c,d, interleaved (k,i,c,a)"
+                        " [single-term intermediates: default, renamed], "
+                        "every pattern with one repeated pair" if q else
+                        "default, renamed onto k,l,c,d, interleaved, reversed"
+                        ", (l,k,d,c), (j,i,a,b) [single-term intermediates: "
+                        "first four], every repetition pattern",
         "syn2_pairs": SYN2_PAIRS_QUICK if q else SYN2_PAIRS_THOROUGH,
         "pert_bases": PERT_BASES if q else PERT_BASES_THOROUGH,
         "pert_modifications": "every single term x {2,-1,dropped} (thorough: "
@@ -1392,6 +1406,9 @@ def describe(case):
     if fam == "pert":
         return {"family": fam, "intermediate": case[2], "remainder": case[3],
                 "perturbed_form": case[5]}
+    if fam == "re":
+        return {"family": fam, "residual_indices": case[2],
+                "remainder": case[3]}
     return {"family": fam, "params": case[2:]}
 
 
